@@ -534,6 +534,9 @@ func (x *Exec) builtin(st *State, fr *Frame, b *ssa.Builtin, call *ssa.CallCommo
 			return scalar(a.Cap, types.Typ[types.Int])
 		}
 	case "append":
+		// a contract may guard what is appended: sink "append" requires ... (sinkarg(0) the list,
+		// sinkarg(1) the appended slice)
+		x.sinkGuards(st, "append", args)
 		return x.doAppend(st, args[0], args[1], call.Args[0].Type(), call.Args[1].Type(), pos)
 	case "copy":
 		return x.doCopy(st, args[0], args[1], call.Args[0].Type(), call.Args[1].Type(), pos)
